@@ -461,8 +461,8 @@ fn run_c20(args: &Args) -> i32 {
     let seed = seed_from(args);
     let workers = opt_u64(args, "workers", 16) as usize;
     let (def_runs, def_budget) = match tier {
-        Tier::Quick => (400_000, 120.0),
-        Tier::Thorough => (12_000_000, 3000.0),
+        Tier::Quick => (250_000, 120.0),
+        Tier::Thorough => (6_000_000, 3000.0),
     };
     let runs = opt_u64(args, "runs", def_runs);
     let budget = args.opts.get("budget").and_then(|s| s.parse().ok()).unwrap_or(def_budget);
